@@ -350,6 +350,78 @@ def cache_kill_probe(ctx, rep: Report, n):
         shutil.rmtree(wd, ignore_errors=True)
 
 
+def local_os_fault_probe(ctx, rep: Report, n):
+    """Local backend: the operating system refuses for good to remove one object (EACCES) while delete / clean run.
+    Whatever the command reports, every snapshot still listed afterwards must restore completely."""
+    import backoff._sync as _bs
+    from replicat.backends.local import Local
+    for i in range(n):
+        seed = ctx.rng.randint(0, 2 ** 31)
+        rng = random.Random(seed)
+        wd = ctx.scratch / f'osfault{i}'
+        wd.mkdir(parents=True, exist_ok=True)
+        world = World(seed, rng.random() < 0.6, wd, concurrent=rng.choice([1, 2]), delay=0.0, nusers=1, chunking=(16, 64))
+        world.backend = Local(wd / 'repo')
+        target_area = ['snapshots', 'data', 'snapshots', 'snapshots'][i % 4]
+        problems = []
+
+        async def go():
+            await world.setup()
+            u = world.users[0]
+            names = []
+            for _ in range(2):
+                d, f = world.make_files(u['name'])
+                res, _ = await world.snapshot(u, d, f)
+                names.append(res.name)
+            victim = names[0]
+            root = str((wd / 'repo').resolve())
+            refused = {'path': None}
+            orig_unlink = Path.unlink
+
+            def refusing(self, missing_ok=False):
+                sp = str(self)
+                rel = os.path.relpath(os.path.abspath(sp), root)
+                if rel.startswith(target_area + os.sep) and (refused['path'] in (None, sp)):
+                    refused['path'] = sp
+                    raise PermissionError(13, 'Permission denied', sp)
+                return orig_unlink(self, missing_ok=missing_ok)
+            saved_sleep = _bs.time
+            Path.unlink = refusing
+
+            class _NoSleep:
+                def __getattr__(self, name):
+                    import time as _t
+                    return getattr(_t, name)
+
+                @staticmethod
+                def sleep(x):
+                    return None
+            _bs.time = _NoSleep()
+            try:
+                try:
+                    await world.delete(u, [victim])
+                except Exception:
+                    pass
+            finally:
+                Path.unlink = orig_unlink
+                _bs.time = saved_sleep
+            listed = [n_ for n_, s_ in world.snaps.items() if (wd / 'repo' / s_['location']).is_file()]
+            for n_ in listed:
+                msg = await world.restore_check(n_)
+                if msg:
+                    problems.append(f'after delete met a permanent EACCES on an object under {target_area}/ a snapshot is still listed but: {msg}')
+                    break
+
+        with quiet()[0], quiet()[1]:
+            asyncio.run(go())
+        rep.case(('local-os-fault', seed, target_area), nontrivial=True)
+        rep.count('local_os_fault_probe')
+        for pmsg in problems:
+            rep.violations.append({'what': pmsg, 'signature': {'kind': 'listed_but_unrestorable_after_os_fault', 'area': target_area},
+                                   'replay': {'probe': 'local_os_fault', 'seed': seed, 'area': target_area}})
+        shutil.rmtree(wd, ignore_errors=True)
+
+
 def _run(ctx, nscen, max_points, nlocal, rep):
     cases, exps = [], []
     for _ in range(nscen):
@@ -364,6 +436,7 @@ def _run(ctx, nscen, max_points, nlocal, rep):
         exps += [(sd, e) for e in ex]
     local_stage_cases(ctx.rng, ctx.scratch, rep, nlocal)
     cache_kill_probe(ctx, rep, max(4, nlocal // 10))
+    local_os_fault_probe(ctx, rep, max(4, nlocal // 10))
     if cases:
         traces, err = repo_hist.model_eval(cases)
         if traces is None:
